@@ -8,6 +8,13 @@ Two parameters are NOT text facts: the version table (`treeVersions`) and the lo
 run (`Config.supportedVersions`, `Config.mutualVersion`, `supportedVersionsFromMax`, `negotiateALPN`,
 `checkALPN`).  What remains a fact about ALPN is the call site in the untranslated
 `processClientHello`: the server's list is passed first (`negAlpnCallServerFirst`).
+
+Likewise the preference order, the (empty) list of disabled suites, "the server's preference list is the outer
+loop" and the guards of `checkForResumption` are the literals `treePref`, `treeDisabled`, `treeServerPrefFirst`,
+`treeResumePolicyGuards`, `treeResumeSuiteGuards`, proved about the translated `Src.*.sel` functions by
+`Gotlcp.Tie.Select` / `Gotlcp.Tie.ResumeDecision` (the text facts `negSelectServerFirst`, `negPrefListFromOrder`,
+`negResumePolicyGuards`, `negResumeSuiteGuards` are informational).  The suite table, its two flag constants, the
+ECDHE ids and the policy numbering stay go/types-evaluated facts.
 -/
 import Gotlcp.Model.Negotiate
 import Gotlcp.Generated.Facts
@@ -23,31 +30,31 @@ def knownOf (t : List (Nat × Nat × Nat × Nat × Nat × Bool × String)) : Lis
   t.map fun r => (r.1, r.2.2.2.2.1)
 
 def tlcpParams : Params :=
-  { versions := treeVersions, pref := Facts.tlcp.preferenceOrder,
-    disabled := Facts.tlcp.disabledSuites, known := knownOf Facts.tlcp.suiteTable,
+  { versions := treeVersions, pref := treePref,
+    disabled := treeDisabled, known := knownOf Facts.tlcp.suiteTable,
     flagECDHE := Facts.tlcp.suiteECDHE, flagECSign := Facts.tlcp.suiteECSign,
     ecdheIds := Facts.tlcp.negEcdheIds, authIota := Facts.tlcp.negAuthIota,
     requires := Facts.tlcp.negRequiresClientCert,
-    serverPrefFirst := Facts.tlcp.negSelectServerFirst,
+    serverPrefFirst := treeServerPrefFirst,
     alpnServerFirst := treeAlpnOuterIsFirstArg && Facts.tlcp.negAlpnCallServerFirst,
     clientEcdheGuard := Facts.tlcp.negHelloEcdheGuard,
     encCertNeedsSig := Facts.tlcp.negEncCertNeedsSigCert,
-    resumeHonoursPolicy := Facts.tlcp.negResumePolicyGuards && Facts.tlcp.negResumeReprocessesCerts,
-    resumeSuiteGuards := Facts.tlcp.negResumeSuiteGuards,
+    resumeHonoursPolicy := treeResumePolicyGuards && Facts.tlcp.negResumeReprocessesCerts,
+    resumeSuiteGuards := treeResumeSuiteGuards,
     cloneMissing := Facts.tlcp.cloneMissing }
 
 def dtlcpParams : Params :=
-  { versions := treeVersions, pref := Facts.dtlcp.preferenceOrder,
-    disabled := Facts.dtlcp.disabledSuites, known := knownOf Facts.dtlcp.suiteTable,
+  { versions := treeVersions, pref := treePref,
+    disabled := treeDisabled, known := knownOf Facts.dtlcp.suiteTable,
     flagECDHE := Facts.dtlcp.suiteECDHE, flagECSign := Facts.dtlcp.suiteECSign,
     ecdheIds := Facts.dtlcp.negEcdheIds, authIota := Facts.dtlcp.negAuthIota,
     requires := Facts.dtlcp.negRequiresClientCert,
-    serverPrefFirst := Facts.dtlcp.negSelectServerFirst,
+    serverPrefFirst := treeServerPrefFirst,
     alpnServerFirst := treeAlpnOuterIsFirstArg && Facts.dtlcp.negAlpnCallServerFirst,
     clientEcdheGuard := Facts.dtlcp.negHelloEcdheGuard,
     encCertNeedsSig := Facts.dtlcp.negEncCertNeedsSigCert,
-    resumeHonoursPolicy := Facts.dtlcp.negResumePolicyGuards && Facts.dtlcp.negResumeReprocessesCerts,
-    resumeSuiteGuards := Facts.dtlcp.negResumeSuiteGuards,
+    resumeHonoursPolicy := treeResumePolicyGuards && Facts.dtlcp.negResumeReprocessesCerts,
+    resumeSuiteGuards := treeResumeSuiteGuards,
     cloneMissing := Facts.dtlcp.cloneMissing }
 
 def factsP : Stack → Params
